@@ -27,6 +27,7 @@ def _case_summary(node):
         "id": case.id,
         "parent_id": node.parent_id,
         "has_transition": node.transition is not None,
+        "transition_id": getattr(node.transition, "id", None),
         "operation": case.operation.label,
         "method": case.method,
         "path": case.path,
